@@ -41,7 +41,12 @@ type c10Job struct {
 	desc string
 	s2   sdf.SDF2
 	s3   sdf.SDF3
-	gate *c10Gate // optional: operands wrapped with it hold their callers until `need` of them are inside at once
+}
+
+// c10Gated is a shape some of whose operands are behind a gate (see c10Gate); it evaluates as the shape does.
+type c10Gated struct {
+	sdf.SDF2
+	gate *c10Gate
 }
 
 // c10Gate makes "many goroutines inside the same combinator at the same moment" a certainty instead of a matter of
@@ -214,7 +219,11 @@ func shardC10(c *Ctx, shard, nshards int) {
 				ops[j] = &gatedSDF2{ops[j], gate}
 			}
 		}
-		run(c10Job{desc: fmt.Sprintf("Union2D[%d operands, some scaled non-uniformly, gated=%v]", n, gate != nil), s2: sdf.Union2D(ops...), gate: gate}, false)
+		var u sdf.SDF2 = sdf.Union2D(ops...)
+		if gate != nil {
+			u = &c10Gated{u, gate}
+		}
+		run(c10Job{fmt.Sprintf("Union2D[%d operands, some scaled non-uniformly, gated=%v]", n, gate != nil), u, nil}, false)
 	}
 	// shared sub-expressions: one cached profile object used twice in a model, once directly and once through a second
 	// Cache2D around it (a helper that caches whatever it is given)
@@ -322,8 +331,9 @@ func c10Hammer(c *Ctx, j c10Job, nPts, reps int) {
 		if rep%2 == 1 {
 			W = 2*W + 3
 		}
-		if j.gate != nil {
-			j.gate.need.Store(int32(W))
+		gated, _ := j.s2.(*c10Gated)
+		if gated != nil {
+			gated.gate.need.Store(int32(W))
 		}
 		for w := 0; w < W; w++ {
 			wg.Add(1)
@@ -346,8 +356,8 @@ func c10Hammer(c *Ctx, j c10Job, nPts, reps int) {
 			}(order)
 		}
 		wg.Wait()
-		if j.gate != nil {
-			j.gate.need.Store(0)
+		if gated != nil {
+			gated.gate.need.Store(0)
 		}
 	}
 	c.Eval(nPts * reps * W)
